@@ -217,12 +217,18 @@ fn main() {
             let text = std::fs::read_to_string(&args[2]).expect("replay file");
             let v: serde_json::Value = serde_json::from_str(&text).expect("json");
             let case: Case = serde_json::from_value(v["case"].clone()).expect("case");
-            let file = case.schedule_file.clone().expect("schedule file");
-            let ex = explore(&case, &replay_dir, Some(&file));
+            // The schedulers are seeded: the same (workload, scheduler, seed, iterations) walks through
+            // the same schedules and fails at the same one. Where shuttle also persisted the failing
+            // schedule to a file, that single schedule is replayed instead.
+            let file = case.schedule_file.clone().filter(|f| std::path::Path::new(f).exists());
+            let ex = explore(&case, &replay_dir.join("replay-schedules"), file.as_deref());
             match ex.failed {
                 Some(m) => {
-                    println!("REPRODUCED property=C12 clause=thread_schedule_dependence schedule={file}");
-                    println!("  detail={m}");
+                    println!(
+                        "REPRODUCED property=C12 clause=thread_schedule_dependence via={}",
+                        file.as_deref().unwrap_or("seeded re-exploration (scheduler seed in the case)")
+                    );
+                    println!("  detail={}", m.lines().next().unwrap_or(""));
                     std::process::exit(1);
                 }
                 None => {
